@@ -558,7 +558,12 @@ impl<'a> LuaLexer<'a> {
                         .eat_while(|c| matches!(c, ' ' | '\t' | '\r' | '\n' | '\x0B' | '\x0C'));
                 }
                 '\r' | '\n' => {
+                    // a backslash quotes one line break, and Lua counts "\n\r" and "\r\n" as one
+                    let first = self.reader.current_char();
                     self.lex_new_line();
+                    if first == '\n' && self.reader.current_char() == '\r' {
+                        self.reader.bump();
+                    }
                 }
                 _ => {
                     self.reader.bump();
